@@ -311,16 +311,19 @@ fn comments(toks: &[Tok]) -> Vec<String> {
 // ------------------------------------------------------------------------------------------------
 // programs
 
-const COMMENT_KINDS: [&str; 5] = ["block", "line", "mblock", "eol-line", "eol-block"];
+const COMMENT_KINDS: [&str; 7] = ["block", "line", "mblock", "eol-line", "eol-block", "same-line", "same-line-block"];
 /// first / second comment text of each kind (distinct texts so that order is observable).
 /// Kinds 0-2 are inserted directly before the terminal (after its separator); the `eol` kinds
 /// replace a line-break separator, i.e. the comment ends the previous line.
-const COMMENT_TEXT: [[&str; 2]; 5] = [
+const COMMENT_TEXT: [[&str; 2]; 7] = [
     ["/* c1 */", "/* d1 */"],
     ["// c2\n", "// d2\n"],
     ["/* a\n   b */", "/* e\n   f */"],
     [" // c3\n", " // d3\n"],
     [" /* c4 */\n", " /* d4 */\n"],
+    // the statement shares the previous statement's line (no comment / a block comment in between)
+    [" ", " "],
+    [" /* c5 */ ", " /* d5 */ "],
 ];
 
 fn comment_dev(slot: (usize, usize), which: usize) -> Dev {
@@ -400,6 +403,10 @@ fn comment_slots(r: &Rendered) -> Vec<(usize, usize)> {
                 if t.sep == "\n" {
                     out.push((i, 3));
                     out.push((i, 4));
+                }
+                if r.joinable(i) {
+                    out.push((i, 5));
+                    out.push((i, 6));
                 }
             }
         }
